@@ -11,7 +11,8 @@
    path below t - each next instance is a child of the previous instance's reference definition. *)
 From Coq Require Import List Arith Bool.
 From SV Require Import Base.Base IR.State IR.NS IR.Ops Proofs.Inv1a Proofs.Inv2a Proofs.C01_lemmas
-  Hier.Paths Hier.Enum Proofs.HierValid Proofs.HierEnum Proofs.HierC11.
+  Hier.Paths Hier.Enum Proofs.HierValid Proofs.HierEnum Proofs.HierC11 Proofs.HierOcc Proofs.HierOccItem
+  Proofs.HierUniq Proofs.HierName.
 Import ListNotations.
 
 (* ---- the recursive instance enumeration returns exactly the paths below the top, each once ---- *)
@@ -130,12 +131,26 @@ Example C11_valid_reference_example :
   exists s h, Inv1a s /\ Inv2a s /\ WFk s /\ is_valid s h = true /\ length h = 3.
 Proof. exact is_valid_example. Qed.
 
-(* ---- not proved in Coq (checked by the correspondence run and the independent path enumeration
-        of harness/hier_oracles.py on every generated netlist): ---- *)
+(* ------------------------------------------------------------------------------------------ *)
+(* ---- occurrences of an element: HRef.get_all_hrefs_of_item / get_all_hrefs_of_instances ---- *)
 
-(* asking for the occurrences of an element returns exactly the references that end in it
-   (HRef.get_all_hrefs_of_item: upward bound set, downward search); the code assumes that the
-   instances it is handed have a reference inside the netlist *)
+(* the kernel: for a non-empty collection of instances whose first member references a definition
+   of netlist n, the upward marking + downward search terminates with the fuel it is given and
+   returns, without duplicates, exactly the instance paths below the top instance of n that end in
+   one of the instances *)
+Theorem C11_hrefs_of_instances : forall s insts x0 rest n t,
+  Inv1a s -> Inv2a s -> WFk s -> acyclic s ->
+  insts = x0 :: rest -> root_netlist s x0 = Some n -> top s n = Some t ->
+  exists l, hrefs_of_instances s insts = Some l /\ NoDup l /\
+            (forall p, In p l <-> (is_rpath s t p /\ exists x, hd_error p = Some x /\ In x insts)).
+Proof. exact hrefs_of_instances_spec. Qed.
+Print Assumptions C11_hrefs_of_instances.
+
+(* the statement as first written: asking for the occurrences of an element returns exactly the
+   references that end in it. It is FALSE of the model and of the code (C11_occurrences_full_refuted):
+   the netlist is found through  reference.library.netlist  of the first instance of the owning
+   definition, so a port / cable / pin / wire of a definition that is not in a library of the
+   netlist has valid occurrences (is_valid; get_hports enumerates them) that are not returned. *)
 Definition C11_occurrences_full : Prop := forall s n t e l,
   WF s -> top s n = Some t -> is_root s t ->
   (kind_of s e = Some KInstance \/ kind_of s e = Some KPort \/ kind_of s e = Some KPin \/
@@ -145,11 +160,149 @@ Definition C11_occurrences_full : Prop := forall s n t e l,
   hrefs_of_item s (QId e) = Some l ->
   NoDup l /\ (forall h, In h l <-> occ s e h).
 
-(* is_unique: valid, and the deepest instance of the reference has exactly one occurrence *)
+Theorem C11_occurrences_full_refuted : ~ C11_occurrences_full.
+Proof. exact occurrences_full_refuted. Qed.
+Print Assumptions C11_occurrences_full_refuted.
+
+(* the corrected statement: one more hypothesis - the definition that owns the port / cable / pin /
+   wire, if it is instantiated at all, sits in a library of the netlist (owner_def, def_netlist:
+   Proofs/HierOccItem.v). For an instance the corresponding hypothesis (its reference is a
+   definition of the netlist; in particular it HAS a reference - open finding
+   C11-instance-without-reference) was already there. *)
+Definition C11_occurrences_corrected : Prop := forall s n t e l,
+  WF s -> top s n = Some t -> is_root s t ->
+  (kind_of s e = Some KInstance \/ kind_of s e = Some KPort \/ kind_of s e = Some KPin \/
+   kind_of s e = Some KCable \/ kind_of s e = Some KWire) ->
+  (kind_of s e = Some KInstance -> root_netlist s e = Some n) ->
+  (forall d, owner_def s e = Some d -> drefs s d <> [] -> def_netlist s d = Some n) ->
+  (forall h, occ s e h -> exists p, is_path s t p /\ exists q, h = q ++ p) ->
+  hrefs_of_item s (QId e) = Some l ->
+  NoDup l /\ (forall h, In h l <-> occ s e h).
+
+Theorem C11_occurrences_holds : C11_occurrences_corrected.
+Proof.
+  intros s n t e l W Ht Hr K Hi Hd U E.
+  destruct (occ_item s n t W Ht Hr e K Hi Hd U) as (l' & E' & N & S).
+  rewrite E in E'. inversion E'; subst l'. split; assumption.
+Qed.
+Print Assumptions C11_occurrences_holds.
+
+(* ... and the query answers (never runs out of fuel, never dereferences None) under the same
+   hypotheses *)
+Theorem C11_occurrences_total : forall s n t e,
+  WF s -> top s n = Some t -> is_root s t ->
+  (kind_of s e = Some KInstance \/ kind_of s e = Some KPort \/ kind_of s e = Some KPin \/
+   kind_of s e = Some KCable \/ kind_of s e = Some KWire) ->
+  (kind_of s e = Some KInstance -> root_netlist s e = Some n) ->
+  (forall d, owner_def s e = Some d -> drefs s d <> [] -> def_netlist s d = Some n) ->
+  (forall h, occ s e h -> exists p, is_path s t p /\ exists q, h = q ++ p) ->
+  exists l, hrefs_of_item s (QId e) = Some l /\ NoDup l /\ (forall h, In h l <-> occ s e h).
+Proof. intros s n t e W Ht Hr. exact (occ_item s n t W Ht Hr e). Qed.
+Print Assumptions C11_occurrences_total.
+
+(* the last hypothesis ("every occurrence hangs below t") holds in particular when t is the only
+   top instance of the heap *)
+Theorem C11_single_top_under : forall s t e, (forall t', is_root s t' -> t' = t) ->
+  forall h, occ s e h -> exists p, is_path s t p /\ exists q, h = q ++ p.
+Proof. exact under_single_root. Qed.
+Print Assumptions C11_single_top_under.
+
+(* a definition: the instance paths that end in one of its instances *)
+Theorem C11_occurrences_of_definition : forall s n t d,
+  WF s -> top s n = Some t ->
+  kind_of s d = Some KDefinition -> (drefs s d <> [] -> def_netlist s d = Some n) ->
+  exists l, hrefs_of_item s (QId d) = Some l /\ NoDup l /\
+            (forall p, In p l <-> exists x p', p = x :: p' /\ is_rpath s t p /\ iref s x = Some d).
+Proof. intros s n t d W Ht. exact (occ_definition s n t W Ht d). Qed.
+Print Assumptions C11_occurrences_of_definition.
+
+(* an outer pin (instance x, inner pin i of port q): one pin reference per occurrence of x; they are
+   valid references when q is a port of the definition x references *)
+Theorem C11_occurrences_of_outer_pin : forall s n t x i q,
+  WF s -> top s n = Some t -> root_netlist s x = Some n -> par s RPins i = Some q ->
+  exists l, hrefs_of_item s (QOuter x i) = Some l /\ NoDup l /\
+            (forall h, In h l <-> exists p', h = i :: q :: x :: p' /\ is_rpath s t (x :: p')).
+Proof. intros s n t x i q W Ht. exact (occ_outer_pin s n t W Ht x i q). Qed.
+Print Assumptions C11_occurrences_of_outer_pin.
+
+Theorem C11_outer_pin_references_valid : forall s t x i q p',
+  WF s -> is_root s t -> par s RPins i = Some q -> In q (ports_of s x) -> is_rpath s t (x :: p') ->
+  is_href s (i :: q :: x :: p').
+Proof. intros s t x i q p' W Hr. exact (outer_pin_refs_valid s t W Hr x i q p'). Qed.
+Print Assumptions C11_outer_pin_references_valid.
+
+Example C11_occurrences_hypotheses_satisfiable :
+  exists s n t e l, WF s /\ top s n = Some t /\ is_root s t /\ kind_of s e = Some KPin /\
+    (forall d, owner_def s e = Some d -> drefs s d <> [] -> def_netlist s d = Some n) /\
+    hrefs_of_item s (QId e) = Some l /\ l = [[5; 4; 6; 7]].
+Proof. exact occ_item_example. Qed.
+
+(* ------------------------------------------------------------------------------------------ *)
+(* ---- is_unique ---- *)
+
+(* the statement as first written: unique exactly when the deepest instance of the reference has a
+   single occurrence. FALSE of the model and of the code (C11_unique_full_refuted): occurrences
+   below the top instance of ANOTHER netlist (which instantiates a definition of this one) are
+   not seen by the climb, which only looks for instances of the path itself. *)
 Definition C11_unique_full : Prop := forall s h x rest,
   WF s -> is_href s h -> chain_instances s h = x :: rest ->
   is_unique s (depth_fuel s) h = Some true <->
   (forall p1 p2, occ s x p1 -> occ s x p2 -> p1 = p2).
+
+Theorem C11_unique_full_refuted : ~ C11_unique_full.
+Proof. exact unique_full_refuted. Qed.
+Print Assumptions C11_unique_full_refuted.
+
+(* what is_unique decides, without further hypothesis: the instance path of the reference is the
+   only instance path from ITS OWN top instance t to its deepest instance x *)
+Theorem C11_unique_paths : forall s h x rest, WF s -> is_href s h -> chain_instances s h = x :: rest ->
+  exists t pre, h = pre ++ [t] /\ is_root s t /\
+    (is_unique s (depth_fuel s) h = Some true <->
+     forall p1 p2, is_rpath s t p1 -> is_rpath s t p2 ->
+                   hd_error p1 = Some x -> hd_error p2 = Some x -> p1 = p2).
+Proof. exact unique_paths. Qed.
+Print Assumptions C11_unique_paths.
+
+(* the corrected statement: when every occurrence of x hangs below the top instance t of the
+   reference (one netlist), unique = "x occurs once in the elaborated design" *)
+Definition C11_unique_corrected : Prop := forall s h x rest t pre,
+  WF s -> is_href s h -> chain_instances s h = x :: rest -> h = pre ++ [t] ->
+  (forall h', occ s x h' -> exists p, is_path s t p /\ exists q, h' = q ++ p) ->
+  (is_unique s (depth_fuel s) h = Some true <->
+   forall p1 p2, occ s x p1 -> occ s x p2 -> p1 = p2).
+
+Theorem C11_unique_holds : C11_unique_corrected.
+Proof. exact unique_occ. Qed.
+Print Assumptions C11_unique_holds.
+
+(* is_unique always answers (the climbs never run out of the fuel they are given) *)
+Theorem C11_is_unique_total : forall s h, WF s -> is_unique s (depth_fuel s) h <> None.
+Proof. intros s h W. exact (is_unique_total s W h). Qed.
+Print Assumptions C11_is_unique_total.
+
+(* the wording of the property: every instance along the path sits in a definition instantiated
+   once => unique. The converse fails even inside one netlist (a second instantiation in a
+   definition that nothing instantiates is ignored): C11_unique_not_only_if. *)
+Theorem C11_unique_when_single : forall s h, WF s -> is_href s h ->
+  (forall c d, In c (chain_instances s h) -> par s RChildren c = Some d -> length (drefs s d) <= 1) ->
+  is_unique s (depth_fuel s) h = Some true.
+Proof. exact unique_when_single. Qed.
+Print Assumptions C11_unique_when_single.
+
+Example C11_unique_not_only_if :
+  let s := run v_ops init in
+  never_stuck v_ops init /\ is_valid s [6; 5; 8] = true /\
+  is_unique s (depth_fuel s) [6; 5; 8] = Some true /\
+  par s RChildren 6 = Some 3 /\ length (drefs s 3) = 2.
+Proof. exact unique_not_only_if. Qed.
+
+Example C11_unique_hypotheses_satisfiable :
+  exists s h x rest t pre, WF s /\ is_href s h /\ chain_instances s h = x :: rest /\ h = pre ++ [t] /\
+    under s t x /\ is_unique s (depth_fuel s) h = Some true /\ length h = 3.
+Proof. exact unique_occ_example. Qed.
+
+(* ------------------------------------------------------------------------------------------ *)
+(* ---- name ---- *)
 
 (* name: slash-joined names of the chain below the top, plus [index] for members of array bundles *)
 Definition C11_name_full : Prop := forall s h t p,
@@ -157,9 +310,75 @@ Definition C11_name_full : Prop := forall s h t p,
   (forall x, In x p -> exists nm, name_get s x = Some nm) ->
   href_name s h = join_names (map (name_get s) (rev p)).
 
+Theorem C11_name_holds : C11_name_full.
+Proof. intros s h t p W Hp Eh _. exact (name_instance_path s h t p W Hp Eh). Qed.
+Print Assumptions C11_name_holds.
+
+(* ... and then the code does not raise *)
+Theorem C11_name_never_raises : forall s h t p,
+  WF s -> is_path s t (p ++ [t]) -> h = p ++ [t] ->
+  (forall x, In x p -> exists nm, name_get s x = Some nm) ->
+  exists nm, href_name s h = Some nm.
+Proof. exact name_never_raises. Qed.
+Print Assumptions C11_name_never_raises.
+
+Theorem C11_name_port_cable : forall s q p t,
+  kind_of s q = Some KPort \/ kind_of s q = Some KCable ->
+  href_name s (q :: p ++ [t]) = join_names (map (name_get s) (rev (q :: p))).
+Proof. exact name_port_cable. Qed.
+Print Assumptions C11_name_port_cable.
+
+(* a wire (pin): the name of its cable (port) reference, plus "[lower_index + position]" when the
+   bundle is an array; the bundle look-up of the code cannot fail *)
+Theorem C11_name_wire : forall s w c p t, Inv1a s ->
+  kind_of s w = Some KWire -> In w (kids s RWires c) ->
+  exists k, nth_error (kids s RWires c) k = Some w /\
+    href_name s (w :: c :: p ++ [t]) =
+    with_suffix (join_names (map (name_get s) (rev (c :: p)))) (index_text s RWires c k).
+Proof. exact name_wire. Qed.
+Print Assumptions C11_name_wire.
+
+Theorem C11_name_pin : forall s i q p t, Inv1a s ->
+  kind_of s i = Some KPin -> In i (kids s RPins q) ->
+  exists k, nth_error (kids s RPins q) k = Some i /\
+    href_name s (i :: q :: p ++ [t]) =
+    with_suffix (join_names (map (name_get s) (rev (q :: p)))) (index_text s RPins q k).
+Proof. exact name_pin. Qed.
+Print Assumptions C11_name_pin.
+
+Example C11_name_example :
+  (is_valid n_state [6; 4; 7; 8] = true) /\
+  (href_name n_state [6; 4; 7; 8] = Some n_wire_name) /\      (* "u1/bus[1]" *)
+  (href_name n_state [4; 7; 8] = Some n_cable_name) /\        (* "u1/bus" *)
+  (href_name n_state [7; 8] = Some n_inst_name) /\ (href_name n_state [8] = Some []).
+Proof. exact name_example. Qed.
+
+(* ------------------------------------------------------------------------------------------ *)
+(* ---- the property as a whole ---- *)
+
+(* as first written: refuted through its occurrence and uniqueness clauses *)
 Definition C11_full : Prop :=
   (forall s n t, Inv1a s -> WFk s -> acyclic s -> top s n = Some t ->
      exists l, get_hinstances_netlist s n true = Some l /\ NoDup l /\
                (forall p, In p l <-> (is_rpath s t p /\ p <> [t])))
   /\ (forall s h, Inv1a s -> Inv2a s -> WFk s -> (is_valid s h = true <-> is_href s h))
   /\ C11_occurrences_full /\ C11_unique_full /\ C11_name_full.
+
+Theorem C11_full_refuted : ~ C11_full.
+Proof. intros (_ & _ & H & _). exact (C11_occurrences_full_refuted H). Qed.
+Print Assumptions C11_full_refuted.
+
+(* with the two corrected clauses: proved *)
+Definition C11_corrected : Prop :=
+  (forall s n t, Inv1a s -> WFk s -> acyclic s -> top s n = Some t ->
+     exists l, get_hinstances_netlist s n true = Some l /\ NoDup l /\
+               (forall p, In p l <-> (is_rpath s t p /\ p <> [t])))
+  /\ (forall s h, Inv1a s -> Inv2a s -> WFk s -> (is_valid s h = true <-> is_href s h))
+  /\ C11_occurrences_corrected /\ C11_unique_corrected /\ C11_name_full.
+
+Theorem C11_corrected_holds : C11_corrected.
+Proof.
+  split; [exact enum_instances_spec|]. split; [exact is_valid_iff|].
+  split; [exact C11_occurrences_holds|]. split; [exact C11_unique_holds|exact C11_name_holds].
+Qed.
+Print Assumptions C11_corrected_holds.
